@@ -6,8 +6,9 @@ cd /repo || exit 3
 if ! git diff --quiet; then echo "/repo has uncommitted changes - refusing"; exit 3; fi
 if ! git apply --check "$patch" 2>/dev/null; then echo "patch does not apply: $patch"; exit 3; fi
 git apply "$patch"
-trap 'git -C /repo checkout -- . ; git -C /repo clean -fdq lib' EXIT
+trap 'git -C /repo checkout -- . ; git -C /repo clean -fdq lib; rm -rf "${VERIF_EVIDENCE_DIR:-/nonexistent}"' EXIT
 cd /verif
+export VERIF_EVIDENCE_DIR=$(mktemp -d /tmp/verif-mut-evidence.XXXXXX)
 rc_all=0
 for id in "$@"; do
   out=$(./vcheck "$id" --tier "${VERIF_TIER:-quick}" 2>&1); rc=$?
